@@ -48,6 +48,7 @@ macro_rules! dispatch {
             "C05" => $f(&props::c05::C05, $($arg),*),
             "C06" => $f(&props::c06::C06, $($arg),*),
             "C08" => $f(&props::c08::C08, $($arg),*),
+            "C09" => $f(&props::c09::C09, $($arg),*),
             "C10" => $f(&props::c10::C10, $($arg),*),
             "C12" => $f(&props::c12::C12, $($arg),*),
             other => {
